@@ -7,6 +7,7 @@ different working directories and journal path lengths, always with --now; stdou
 journal path normalised) and the exit status must coincide (xml object ids removed, as documented).
 Correspondence: for the transaction journals the first layout's result is also compared with the
 extracted finalize model, whose independence from hash-table order is what Properties_C19.v proves."""
+import time
 import hashlib, importlib, os, re, shutil, subprocess
 import lib
 from fractions import Fraction as F
@@ -67,6 +68,8 @@ def run_case(ctx, res, tag, text, cmd, nlay, stdin_cmds=None):
     outs = {}
     first = None
     for li, (pre, env, sub) in enumerate(layouts(ctx, nlay)):
+        if tag.startswith('c20') and li == nlay - 1:
+            time.sleep(1.3)          # a session left open is closed at --now, not at the moment of the run: let the clock move on
         d = ctx.path(os.path.join('lay', sub))
         os.makedirs(d, exist_ok=True)
         path = os.path.join(d, 'j%s.dat' % ('x' * (li * 7)))
@@ -286,7 +289,8 @@ def run(ctx, n_override=None):
                                    ['bal', '--average-lot-prices', '--lot-dates'], ['bal', '--average-lot-prices', '--lots'], ['reg', '--average-lot-prices', '--lot-dates'],
                                    ['bal', '--average-lot-prices', '--lot-dates', '--flat'], ['bal', '--lot-dates'], ['bal', '--lot-prices']]))
         if tag == 'c20' and rng.random() < 0.5:
-            cmd = list(rng.choice([['bal', '--time-report'], ['bal', '--time-report', '--flat'], ['reg'], ['bal', '--day-break']]))
+            cmd = list(rng.choice([['bal', '--time-report'], ['bal', '--time-report', '--flat'], ['reg'], ['bal', '--day-break'],
+                                   ['bal', '--base'], ['reg', '--base'], ['print', '--base'], ['reg', '--base', '--day-break']]))
         first = run_case(ctx, res, tag, text, cmd, nlay)
         res.count('kind:' + tag)
         if first and (first[1] or first[2]):
